@@ -38,8 +38,10 @@ class Gen:
             return float(v)
         return int(v) if float(v).is_integer() else v
 
-    def n(self) -> int:
-        return self.rng.choice(NS)
+    def n(self):
+        """n of NthPower / NthRoot; sometimes spelled as an integral float, which is legal"""
+        k = self.rng.choice(NS)
+        return float(k) if self.rng.random() < 0.15 else k
 
     # expressions ---------------------------------------------------------------------------
     def leaf(self):
